@@ -2,6 +2,15 @@ import BreezyVerif.Model.C14
 /-! Helper lemmas for C14. -/
 namespace BreezyVerif.C14
 
+theorem filterMap_congr' {α β : Type} {f g : α → Option β} {l : List α} (h : ∀ a ∈ l, f a = g a) :
+    l.filterMap f = l.filterMap g := by
+  induction l with
+  | nil => rfl
+  | cons a rest ih =>
+    have ha := h a (by simp)
+    have hr := ih (fun b hb => h b (by simp [hb]))
+    simp only [List.filterMap_cons, ha, hr]
+
 theorem alookup_aerase_self {β : Type} (l : List (Tid × β)) (k : Tid) : alookup (aerase l k) k = none := by
   unfold alookup aerase
   have : (List.filter (fun e => e.1 != k) l).find? (fun e => e.1 == k) = none := by
